@@ -379,5 +379,5 @@ func TestSimWorker(t *testing.T) {
 		t.Skip("simulation worker: set VERIF_HARNESS")
 	}
 	simT = t
-	os.Exit(simk.WorkerMain([]*simk.Harness{{Name: "bbc", Gen: genBbcCase, Run: runBbcCase}}))
+	os.Exit(simk.WorkerMain([]*simk.Harness{{Name: "bbc", Gen: genBbcCase, Run: runBbcCase}, {Name: "dec-bbc", Gen: genBbcDecCase, Run: runBbcDecCase}}))
 }
